@@ -9,9 +9,9 @@ import vlib
 from vlib import Inconclusive
 
 META = {
-    'technique': 'TLA+ Cluster.tla (machineManager.Do + schedule()) checked exhaustively by TLC; recorded placement decisions of the real schedule() and recorded hook-event streams of a live machineManager (offer/cancel/done/kill/probation) judged by the ledger monitor ClusterMon.tla, including machines that die while they are being started (pending ledger: PendingCountsOnlyMachinesStillStarting)',
+    'technique': 'TLA+ Cluster.tla (machineManager.Do + schedule()) checked exhaustively by TLC; recorded placement decisions of the real schedule() and recorded hook-event streams of a live machineManager (offer/cancel/done/kill/probation) judged by the ledger monitor ClusterMon.tla, including machines that die while they are being started (pending ledger: PendingCountsOnlyMachinesStillStarting); the same event streams are validated against Cluster.tla\'s own actions by ClusterTrace.tla (conformance/DRIFT, binding self-test by corrupting a logged field); failure paths of bigmachineExecutor.Run in real sessions with machine combiners (machine dies at the n-th Worker.Compile / CommitCombiner / Run call): ProcsReturnedWhenTaskEnds',
     'level_text': 'model_checking: the manager design (request queue, reservation placement, loads, health, need/pending accounting, batched growth, stops, probation) is explored exhaustively for 4-5 requests and 3-4 machines (capacity, conservation, exclusivity, healthy-only, need accounting, no over-start); every placement decision for all small queues x machine loads is replayed through the real schedule() and must be a result of the documented algorithm (TLC); event sequences against a live manager on a bigmachine testsystem are recorded through hooks in Do and judged against a ledger kept from the events (never oversubscribed, only healthy machines, procs returned once, need accounting, growth justified, fitting request eventually granted)',
-    'level_note': 'bigmachineExecutor.Run\'s obligation to call Done on every exit path is exercised through whole sessions in C06 (session stays usable); the local limiter through hooks in C06; timing: probation timeout and keepalive are shortened by the harness',
+    'level_note': 'bigmachineExecutor.Run\'s obligation to call Done on every exit path is exercised by real sessions whose machines die at chosen RPCs of the executor (ledger clause ProcsReturnedWhenTaskEnds) and through whole sessions in C06; the local limiter through hooks in C06; timing: probation timeout and keepalive are shortened by the harness; manager events are attributed to the manager under observation by goroutine id (managers of earlier sessions keep ticking)',
 }
 
 
